@@ -116,7 +116,11 @@ class CallbackSpec:
         return name
 
     def __eq__(self, other):
-        return self.func == other.func and self.group == other.group
+        return (
+            self.func == other.func
+            and self.group == other.group
+            and self.expected_value == other.expected_value
+        )
 
     def __hash__(self):
         return id(self)
@@ -281,10 +285,12 @@ class CallbacksExecutor:
         return ", ".join(str(c) for c in self)
 
     def add(self, key: str, spec: CallbackSpec, builder: Callable[[], Callable]):
-        if key in self.items_already_seen:
+        # a `cond` and an `unless` entry may name the same callable: they are two guards
+        seen_key = (key, spec.expected_value)
+        if seen_key in self.items_already_seen:
             return
 
-        self.items_already_seen.add(key)
+        self.items_already_seen.add(seen_key)
 
         condition = spec.cond if spec.cond is not None else allways_true
         wrapper = CallbackWrapper(
